@@ -7,6 +7,7 @@ caching off or with the memory cache on and a second request for the same URL.  
 independent HTTP/1.x response parser run over the bytes the client socket received.
 """
 import re
+import time
 
 from vverif import bodyrelay as br
 from vverif import httpref
@@ -168,12 +169,28 @@ def all_cases(ctx):
                     if T or ck in ('-', 'page'):
                         # every boundary cut at once (multi-piece)
                         add('bigsplit', seg=sorted(set(br.cuts_around(total, bnd + [len(h) + x for x in bnd], 0))), **base)
+    # F5 slowclient: Squid's own socket buffers are small (tcp_recv_bufsize) and the client does not read until
+    # everything has come to a standstill, so the body has to wait inside Squid (read_ahead_gap, delayed reads)
+    # while the origin may already have finished or closed early
+    slow_sizes = [k['read_ahead_gap'] + 1, 2 * k['read_ahead_gap'] + 1, 65537] + ([2 * 65536 + 1, k['maximum_object_size_in_memory'] + 1, (1 << 20) + 1] if T else [])
+    for fr, ck in FR_BIG:
+        for size in slow_sizes:
+            for ver in ('1.1', '1.0'):
+                for cache in (0, 1):
+                    for comp in ('full', 'half'):
+                        if comp != 'full' and fr == 'close':
+                            continue
+                        for drain in ('stall', 'sip'):
+                            if drain == 'sip' and size > 2 * 65536 + 1:
+                                continue
+                            add('slowclient', fr=fr, ck=ck, size=size, ver=ver, cache=cache, cut=comp, drain=drain)
     return cases
 
 
 def describe(c):
-    return '%s st=%d %s/%s size=%d ver=%s cache=%d cut=%s seg=%s' % (
-        c['fam'], c['st'], c['fr'], c['ck'], c['size'], c['ver'], c['cache'], c['cut'], c['seg'])
+    return '%s st=%d %s/%s size=%d ver=%s cache=%d cut=%s seg=%s%s' % (
+        c['fam'], c['st'], c['fr'], c['ck'], c['size'], c['ver'], c['cache'], c['cut'], c['seg'],
+        (' drain=' + c['drain']) if c.get('drain') else '')
 
 
 def key_of(c):
@@ -187,17 +204,21 @@ class Tx:
     pass
 
 
-def transact(w, request, plan_for, max_rounds=400):
+def transact(w, request, plan_for, max_rounds=3000, slow=None):
     """Send `request` on a new client connection; the origin answers the n-th request it parses with
     plan_for(n, reqmsg) = (pieces, then) — one piece per driver round.  Runs until the client has a complete
-    response / EOF, or nothing moves any more."""
+    response / EOF, or nothing moves any more.  slow='stall': the client (small receive buffer) reads nothing
+    until everything else has come to a standstill, then drains; slow='sip': ... then reads 1 KB per round."""
     sq = w.sq
     t = Tx()
     t.origin_reqs, t.origin_raw, t.feeders = [], b'', []
-    c = sq.client()
+    c = br.small_client(sq) if slow else sq.client()
+    draining = not slow
+    t.backpressure_rounds = 0
     c.send(request)
     oconns = []
     idle = 0
+    grace = 0
     t.rounds = 0
     t.stalled = False
     while t.rounds < max_rounds:
@@ -232,7 +253,13 @@ def transact(w, request, plan_for, max_rounds=400):
             elif oc.eof and not oc.closed:
                 oc.close()
                 progressed = True
-        if c.pump():
+        if draining:
+            if (br.sip(c, 1024) if slow == 'sip' else c.pump()):
+                progressed = True
+        elif not progressed:
+            draining = True          # standstill: the origin is done or blocked and Squid is idle -> start reading
+            t.backpressure_rounds = t.rounds
+            t.unread_at_standstill = br.unread_bytes(c)
             progressed = True
         feeding = any(not f.finished for f in t.feeders)
         if not feeding:
@@ -248,6 +275,13 @@ def transact(w, request, plan_for, max_rounds=400):
         else:
             idle += 1
             if idle >= 3:
+                if grace < 2:
+                    # kernel TCP timers (delayed ACK / window update, ~40 ms) run in real time: before declaring a
+                    # standstill give them a chance to fire
+                    grace += 1
+                    idle = 0
+                    time.sleep(0.06)
+                    continue
                 t.stalled = any(not f.finished for f in t.feeders)
                 break
     t.client_bytes = c.inbuf
@@ -367,7 +401,7 @@ def run_case(w, case):
         return ([head2 + payload2], 'close' if case['fr'] == 'close' else None)
     violation = None
     tr = []
-    t1 = transact(w, request_bytes(w, path, case['ver']), plan_for)
+    t1 = transact(w, request_bytes(w, path, case['ver']), plan_for, slow=case.get('drain'))
     if t1.stalled:
         raise HarnessError('case %s: origin could not send its response (back-pressure never released)' % describe(case))
     if len(t1.origin_reqs) != 1:
@@ -380,6 +414,10 @@ def run_case(w, case):
         cls1, violation = check_response(t1, case, case['ver'], [body1], sent_body, upstream_complete)
     tr.append(summary(t1))
     outcome = cls1
+    if case.get('drain'):
+        # evidence that the body really had to wait inside Squid: less was deliverable at the standstill than in the end
+        held = getattr(t1, 'unread_at_standstill', None)
+        outcome += ' [held-in-squid]' if held is not None and held < len(t1.client_bytes) else ' [not-held]'
     if case['cache'] and violation is None:
         def plan2(n, reqmsg):
             return ([head2 + payload2], 'close' if case['fr'] == 'close' else None)
@@ -415,6 +453,16 @@ def make_world(ctx, shard):
     return ls.World(ctx, 'w%d' % shard, ls.port_base_for_check(ctx.pid, shard), conf=CONF, memory_cache=True)
 
 
+def make_world_small(ctx, shard):
+    """Same, but Squid's TCP socket buffers are 4 KB (tcp_recv_bufsize sets both directions): a peer that does not
+    read blocks Squid's writes after a few KB."""
+    return ls.World(ctx, 's%d' % shard, ls.port_base_for_check(ctx.pid, shard), conf=CONF + br.SMALLBUF_CONF, memory_cache=True)
+
+
+def world_maker(case):
+    return make_world_small if case['fam'] == 'slowclient' else make_world
+
+
 ASSUME = ['the real squid binary (ASan build of the current tree) runs under the lock-step/virtual-time shim; client and origin are played by the driver',
           'one Squid instance per shard is reused for all cases of the shard (unique URL per case; "caching off" = a cache deny rule matching the /n/ URL space, '
           'caching on = memory cache, no disk store); origin connections are closed between cases',
@@ -424,7 +472,8 @@ ASSUME = ['the real squid binary (ASan build of the current tree) runs under the
 RULE = ('families: split2/split3 = every 2-/3-piece split of a small origin message; prefix = origin closes after every proper prefix of a small message; '
         'sizes = status {200,404,500,301} x framing/chunk layout x body size in B (0,1,2, buffer/page boundaries +-1) x client version {1.1,1.0} x '
         'caching {deny, memory cache + second request} x completeness {full, 1 byte early, halfway, right after the head}; totals = whole message length on a boundary +-1; '
-        'bigsplit = large bodies cut at every boundary +-1 / byte-at-a-time ends. non-trivial = cases in which Squid relayed the origin response head to the client '
+        'bigsplit = large bodies cut at every boundary +-1 / byte-at-a-time ends; slowclient = Squid with 4 KB socket buffers and a client that reads nothing until '
+        'everything stands still (then drains at once / 1 KB per round). non-trivial = cases in which Squid relayed the origin response head to the client '
         '(not answered by an error page / bare close)')
 
 
@@ -444,14 +493,19 @@ def run(ctx):
 
     def rc(w, case):
         return run_case(w, case)
-    r = ls.run_cases(ctx, cases, rc, make_world, key_of=key_of, determinism_n=10)
+    r = ls.run_cases(ctx, [c for c in cases if c['fam'] != 'slowclient'], rc, make_world, key_of=key_of, determinism_n=10)
+    r2 = ls.run_cases(ctx, [c for c in cases if c['fam'] == 'slowclient'], rc, make_world_small, key_of=key_of, determinism_n=3)
+    r = br.merge_results(r, r2)
     oc = r['outcomes']
-    complete = sum(v for k, v in oc.items() if k.split(' | ')[0].endswith(':complete'))
+    complete = sum(v for k, v in oc.items() if ':complete' in k.split(' | ')[0])
     truncated = sum(v for k, v in oc.items() if ':truncated+close' in k.split(' | ')[0])
     hits = sum(v for k, v in oc.items() if '2nd:hit:' in k)
     misses = sum(v for k, v in oc.items() if '2nd:miss:' in k)
     relayed = sum(v for k, v in oc.items() if '>' in k.split(' | ')[0].split(':')[0])
+    held = sum(v for k, v in oc.items() if '[held-in-squid]' in k)
     done = r['evaluations'] == len(cases) and not r['deadline_hit']
+    if not r['violations'] and done and held < 50:
+        raise HarnessError('vacuity guard: only %d slow-client cases made the body wait inside Squid: %r' % (held, oc))
     if not r['violations'] and done:
         if complete < len(cases) // 3 or truncated < 20 or hits < 20 or misses < 5:
             raise HarnessError('vacuity guard: complete=%d truncated+close=%d hits=%d misses=%d of %d cases: %r' % (
@@ -465,14 +519,14 @@ def run(ctx):
     cov = {'evaluations': r['evaluations'], 'distinct_nontrivial': relayed, 'rule': RULE, 'samples': samples,
            'outcome_classes': oc, 'exhaustive': done, 'kicks': r['kicks'], 'determinism_replays': r['replays'],
            'cases_total': len(cases), 'cases_per_family': fams, 'complete_relays': complete, 'visible_truncations': truncated,
-           'cache_hits_checked': hits, 'second_request_misses': misses,
+           'cache_hits_checked': hits, 'second_request_misses': misses, 'slow_client_bodies_held_in_squid': held,
            'sizes_B': sizes_B(ctx)}
     return Result(LEVEL, cov, vio, ASSUME)
 
 
 def replay(ctx, data):
     ls.build_squid(ctx)
-    w = make_world(ctx, 0)
+    w = world_maker(data['case'])(ctx, 0)
     w.start()
     try:
         r = run_case(w, data['case'])
